@@ -182,7 +182,7 @@ def strip_line_comments(s):
 
 def norm_attrs(t, derive):
     """D2: drop derive/serde/repr-free attribute lines of an extracted type, put a fixed derive list."""
-    t = re.sub(r'^[ \t]*#\[(derive|serde|allow|cfg_attr)\b[^\n]*\]\n', '', t, flags=re.M)
+    t = re.sub(r'^[ \t]*#\[(derive|serde|allow|cfg_attr|derivative)\b[^\n]*\]\n', '', t, flags=re.M)
     t = re.sub(r'^[ \t]*#\[derive\((?:[^()]|\n)*\)\]\n', '', t, flags=re.M)
     if derive:
         t = '#[derive(%s)]\n' % derive + t
